@@ -370,22 +370,18 @@ func normalizeHeaderValue(ov, ob []byte, headerLength int) (nv, nb []byte, nhl i
 	}
 
 	nv = nv[:write]
-	copy(ob[write:], ob[write+shrunk:])
 
-	// Check if we need to skip \r\n or just \n
-	skip := 0
-	if ob[write] == '\r' {
-		if ob[write+1] == '\n' {
-			skip += 2
-		} else {
-			skip++
-		}
-	} else if ob[write] == '\n' {
-		skip++
+	// The value has been compacted in place. Everything after it stays where it is (it may be the
+	// body or the next pipelined message): continue right after the line feed that ends the value.
+	next := length
+	for next < len(ob) && ob[next] != '\n' {
+		next++
 	}
-
-	nb = ob[write+skip : len(ob)-shrunk]
-	nhl = headerLength - shrunk
+	if next < len(ob) {
+		next++
+	}
+	nb = ob[next:]
+	nhl = headerLength
 	return
 }
 
